@@ -44,32 +44,43 @@ Proof.
   - inversion H; subst. cbn in Hcl'. subst cl. reflexivity.
 Qed.
 
+(* well-formedness of a concrete wire value, structurally (vm_compute on [wt] is exponential:
+   it normalises the comparison functions under the Forall binder) *)
+Ltac wt_leaf :=
+  first [ exact I | (left; reflexivity) | (right; reflexivity)
+        | (unfold in_signed, pow256, ZM31, is_byte; cbn; lia) ].
+Ltac wt_solve :=
+  repeat (cbn; first [ wt_leaf | apply Forall_cons | apply Forall_nil | apply conj ]).
 Ltac wf_solve :=
-  split; [vm_compute; repeat (split || constructor); try (let X := fresh "X" in intro X; discriminate X)
-         | cbn; repeat eexists].
-Ltac refute w st code :=
+  split; [repeat autounfold with wvals; wt_solve | cbn; repeat eexists].
+Ltac refute a v w st code :=
   let H := fresh "H" in intro H;
+  let Hwf := fresh "Hwf" in assert (Hwf : well_formed a v w) by wf_solve;
+  let Hfit := fresh "Hfit" in assert (Hfit : fits (enc (resp_ty a v) w)) by (vm_compute; reflexivity);
   let E := fresh "E" in
-  assert (E : exists st' s', conn_do st _ (frame (wrap32 (corr st + 1)) (enc _ w) ++ [])
+  assert (E : exists st' s', conn_do st (mkOp a v 0) (frame (wrap32 (corr st + 1)) (enc (resp_ty a v) w) ++ [])
                               = (st', RErr (EKafka code), s') /\ s' <> [])
     by (eexists; eexists; split; [vm_compute; reflexivity|discriminate]);
+  let st' := fresh "st'" in let s' := fresh "s'" in let Hne := fresh "Hne" in
   destruct E as (st' & s' & E & Hne);
-  apply Hne; eapply H; [| |reflexivity|exact E]; [wf_solve|vm_compute; reflexivity].
+  exact (Hne (proj1 (H w st 0 code [] st' s' Hwf Hfit eq_refl E))).
 
 Definition topic_t : wval := WS (Some [116%N]).
 Definition one_tp (part : wval) : wval := WL (Some [WP topic_t (WL (Some [part]))]).
 
+#[export] Hint Unfold topic_t one_tp : wvals.
 (* produce: partition error code 6, throttle 0: the 4 throttle bytes stay in the stream *)
 Definition w_produce_v2 : wval :=
   WP (one_tp (WP (WZ 0) (WP (WZ 6) (WP (WZ 5) (WZ 7))))) (WZ 0).
 Definition w_produce_v7 : wval :=
   WP (one_tp (WP (WZ 0) (WP (WZ 6) (WP (WZ 5) (WP (WZ 7) (WZ 0)))))) (WZ 0).
+#[export] Hint Unfold w_produce_v2 w_produce_v7 : wvals.
 Lemma refuted_produce_v2 : ~ aligned_statement AProduce 2.
-Proof. refute w_produce_v2 (fresh [116%N]) 6. Qed.
+Proof. refute AProduce 2%N w_produce_v2 (fresh [116%N]) 6. Qed.
 Lemma refuted_produce_v3 : ~ aligned_statement AProduce 3.
-Proof. refute w_produce_v2 (fresh [116%N]) 6. Qed.
+Proof. refute AProduce 3%N w_produce_v2 (fresh [116%N]) 6. Qed.
 Lemma refuted_produce_v7 : ~ aligned_statement AProduce 7.
-Proof. refute w_produce_v7 (fresh [116%N]) 6. Qed.
+Proof. refute AProduce 7%N w_produce_v7 (fresh [116%N]) 6. Qed.
 
 (* fetch v5 / v10: partition error code 1 (OffsetOutOfRange), no aborted transactions, empty
    message set: the 4-byte message-set size stays in the stream *)
@@ -81,14 +92,15 @@ Definition w_fetch_v10_top : wval := WP (WZ 0) (WP (WZ 6) (WP (WZ 0) (one_tp (fe
 (* fetch v2: partition error with a non-empty message set (3 opaque bytes) *)
 Definition w_fetch_v2 : wval :=
   WP (WZ 0) (one_tp (WP (WZ 0) (WP (WZ 1) (WP (WZ 10) (WS (Some [1%N; 2%N; 3%N])))))).
+#[export] Hint Unfold fetch_part_v5 w_fetch_v5 w_fetch_v10_part w_fetch_v10_top w_fetch_v2 : wvals.
 Lemma refuted_fetch_partition_v5 : ~ aligned_statement AFetch 5.
-Proof. refute w_fetch_v5 (fresh [116%N]) 1. Qed.
+Proof. refute AFetch 5%N w_fetch_v5 (fresh [116%N]) 1. Qed.
 Lemma refuted_fetch_partition_v10 : ~ aligned_statement AFetch 10.
-Proof. refute w_fetch_v10_part (fresh [116%N]) 1. Qed.
+Proof. refute AFetch 10%N w_fetch_v10_part (fresh [116%N]) 1. Qed.
 Lemma refuted_fetch_toplevel_v10 : ~ aligned_statement AFetch 10.
-Proof. refute w_fetch_v10_top (fresh [116%N]) 6. Qed.
+Proof. refute AFetch 10%N w_fetch_v10_top (fresh [116%N]) 6. Qed.
 Lemma refuted_fetch_partition_v2 : ~ aligned_statement AFetch 2.
-Proof. refute w_fetch_v2 (fresh [116%N]) 1. Qed.
+Proof. refute AFetch 2%N w_fetch_v2 (fresh [116%N]) 1. Qed.
 
 (* what the NEXT operation sees after the produce witness: io.ErrNoProgress, connection kept *)
 Definition hb : op := mkOp AHeartbeat 0 0.
@@ -142,7 +154,7 @@ Lemma produce_error_cut_in_throttle :
     = (st', RErr (EKafka 6), s') /\ closed st' = false.
 Proof. eexists. eexists. split; [vm_compute; reflexivity|reflexivity]. Qed.
 
-(* fetch: ReadBatch + Close without reading a message.  A 30-byte magic-1 message set
+(* fetch: ReadBatch + Close without reading a message.  A 36-byte magic-1 message set
    (one message, key null, value "ab"); a cut after the message header is swallowed:
    Batch.close ignores the error of msgs.discard(), returns nil and keeps the Conn. *)
 Definition msgset_v1 : list N :=
@@ -156,25 +168,25 @@ Lemma fetch_full_ok :
 Proof. vm_compute. reflexivity. Qed.
 (* cut inside the fetch header or the first message header: io.ErrUnexpectedEOF, closed *)
 Lemma fetch_cut_header :
-  forall k, (k < 61)%nat ->
+  forall k, (k < 67)%nat ->
   exists st' s', conn_do (fresh [116%N]) (mkOp AFetch 2 7)
                    (firstn k (frame 1 (enc (resp_ty AFetch 2) w_fetch_ok_v2)))
                  = (st', RErr EUnexpEOF, s') /\ closed st' = true.
 Proof.
   intros k Hk.
-  assert (Hc : In k (seq 0 61)) by (apply in_seq; lia).
+  assert (Hc : In k (seq 0 67)) by (apply in_seq; lia).
   cbn [seq In] in Hc.
   repeat (destruct Hc as [Hc|Hc]; [subst k; eexists; eexists; split; [vm_compute; reflexivity|reflexivity]|]).
   contradiction.
 Qed.
 Lemma fetch_close_swallows_cut :
-  forall k, (61 <= k < 71)%nat ->
+  forall k, (67 <= k < 77)%nat ->
   exists st' s', conn_do (fresh [116%N]) (mkOp AFetch 2 7)
                    (firstn k (frame 1 (enc (resp_ty AFetch 2) w_fetch_ok_v2)))
                  = (st', ROk (VL [VZ 0; VZ 100]), s') /\ closed st' = false.
 Proof.
   intros k Hk.
-  assert (Hc : In k (seq 61 10)) by (apply in_seq; lia).
+  assert (Hc : In k (seq 67 10)) by (apply in_seq; lia).
   cbn [seq In] in Hc.
   repeat (destruct Hc as [Hc|Hc]; [subst k; eexists; eexists; split; [vm_compute; reflexivity|reflexivity]|]).
   contradiction.
